@@ -8,6 +8,7 @@ from dataclasses import MISSING
 from dataclasses import fields
 from dataclasses import is_dataclass
 from typing import Any
+from typing import List
 
 from .._change import CallArg
 from .._change import Delete
@@ -60,6 +61,11 @@ class GenericCallAdapter(Adapter):
     @classmethod
     def argument(cls, value, pos_or_name) -> Any:
         raise NotImplementedError(cls)
+
+    @classmethod
+    def positional_names(cls, value) -> List[str]:
+        """The names of the arguments which can be given by position."""
+        return []
 
     @classmethod
     def repr(cls, value):
@@ -157,6 +163,18 @@ class GenericCallAdapter(Adapter):
                 return old_value
 
         new_args, new_kwargs = self.arguments(new_value)
+
+        # arguments which are positional in the source stay positional
+        if len(old_node.args) > len(new_args):
+            new_args = list(new_args)
+            new_kwargs = dict(new_kwargs)
+            names = self.positional_names(new_value)
+            for name in names[len(new_args) : len(old_node.args)]:
+                if name in new_kwargs:
+                    value = new_kwargs.pop(name).value
+                else:
+                    value = self.argument(new_value, name)
+                new_args.append(Argument(value=value))
 
         # positional arguments
 
@@ -302,6 +320,14 @@ class DataclassAdapter(GenericCallAdapter):
             args = [field for field in fields(value) if field.init]
             return getattr(value, args[pos_or_name].name)
 
+    @classmethod
+    def positional_names(cls, value):
+        return [
+            field.name
+            for field in fields(value)
+            if field.init and not getattr(field, "kw_only", False)
+        ]
+
 
 try:
     import attrs
@@ -352,6 +378,14 @@ else:
         def init_name(field):
             # the argument of __init__ for the private attribute _x is x
             return getattr(field, "alias", None) or field.name
+
+        @classmethod
+        def positional_names(cls, value):
+            return [
+                cls.init_name(field)
+                for field in attrs.fields(type(value))
+                if field.init and not field.kw_only
+            ]
 
         def argument(self, value, pos_or_name):
             if isinstance(pos_or_name, int):
@@ -483,6 +517,10 @@ class NamedTupleAdapter(GenericCallAdapter):
         if isinstance(pos_or_name, int):
             return value[pos_or_name]
         return getattr(value, pos_or_name)
+
+    @classmethod
+    def positional_names(cls, value):
+        return list(value._fields)
 
 
 class DefaultDictAdapter(GenericCallAdapter):
